@@ -739,4 +739,39 @@ def c01_insertion(ctx):
     return _r(ctx)
 
 
-RULES = [c01_insertion, c03_registry, c03_xy_exchange, scale_covers, c04_chief_ray, c01_arg_wiring_rule, c01_init_stores, scale_homogeneous, scale_system, scale_relies_on_thickness_edit, mirror, w_flow, dummy_identity]
+def aperture_scaled_once(ctx):
+    """scale_system multiplies every length once: a physical aperture object
+    that is carried by several surfaces must not be scaled once per surface"""
+    P = ctx.P
+    res = Result('APERTURE-SCALED-ONCE', 'scale_system scales each physical '
+                 'aperture object once, however many surfaces carry it')
+    f = P.func('Optic.scale_system')
+    res.saw(f)
+    loops = [n for n in ast.walk(f.node) if isinstance(n, ast.For) and any(
+        isinstance(c, ast.Call) and isinstance(c.func, ast.Attribute) and
+        c.func.attr == 'scale' and 'aperture' in unparse(c.func.value)
+        for c in ast.walk(n))]
+    if not loops:
+        raise AnalysisError('scale_system: aperture scaling loop not found')
+    lp = loops[0]
+    guarded = any(isinstance(t, ast.Compare) and
+                  isinstance(t.ops[0], (ast.NotIn, ast.In)) and
+                  ('id(' in unparse(t.left) or 'aperture' in unparse(t.left))
+                  for t in ast.walk(lp)) or \
+        'set(' in unparse(lp.iter) or 'unique' in unparse(lp.iter) or \
+        '.values()' in unparse(lp.iter)
+    if guarded:
+        res.ok('aperture objects are de-duplicated before scaling')
+    else:
+        res.fail(ctx.finding(
+            'APERTURE-SCALED-ONCE', f, lp,
+            'the aperture loop calls surface.aperture.scale(factor) once per '
+            'surface: a RadialAperture object shared by two surfaces ends up '
+            'scaled by factor^2 (radii (4, 20) instead of (2, 10) after '
+            'scale_system(2): marginal rays are clipped, rays through the '
+            'central obstruction pass)',
+            construct='shared aperture scaled per surface'))
+    return res
+
+
+RULES = [aperture_scaled_once, c01_insertion, c03_registry, c03_xy_exchange, scale_covers, c04_chief_ray, c01_arg_wiring_rule, c01_init_stores, scale_homogeneous, scale_system, scale_relies_on_thickness_edit, mirror, w_flow, dummy_identity]
